@@ -1,4 +1,5 @@
 import TaskModel.Decode.Sites
+import TaskModel.Decode.Outcome
 /-!
 # C16 — No input makes Task crash (partial by scope)
 
@@ -26,13 +27,8 @@ theorem sites_nonempty : TaskModel.Gen.PanicSites.sites.length ≥ 40 := by deci
 
 theorem C16_yaml_pairs (n i : Nat) (hn : n % 2 = 0) (hi : i % 2 = 0) (h : i < n) : i + 1 < n := mapping_pairs_in_range n i hn hi h
 
-/-- outcome classes of one run of the load/list/compile/resolve path -/
-inductive Outcome | ok | error (code : Nat) | panic | timeout
-deriving DecidableEq, Repr
-
-/-- what the property allows -/
-def acceptable : Outcome → Bool
-  | .ok | .error _ => true
-  | .panic | .timeout => false
+/-- a panic or a time-out is never an acceptable outcome; success and diagnosed errors are -/
+theorem C16_outcomes : acceptable .panic = false ∧ acceptable .timeout = false ∧ acceptable .ok = true ∧ ∀ c, acceptable (.error c) = true :=
+  ⟨rfl, rfl, rfl, fun _ => rfl⟩
 
 end Props.C16
